@@ -214,7 +214,9 @@ class Oracle:
         self.n = 0
 
     def fail(self, kind, what, expected=None, actual=None):
-        self.ctx.fail(kind, {"history": self.history[: self.n + 1], "stream": "ok"}, what, expected=expected, actual=actual)
+        self.ctx.count(f"oracle-failure:{kind}")
+        if len(self.ctx.failures) < 200:  # keep the first (shortest) ones, count the rest
+            self.ctx.fail(kind, {"history": self.history[: self.n + 1], "stream": "ok"}, what, expected=expected, actual=actual)
 
     def before(self, op):
         sut = self.sut
